@@ -677,6 +677,9 @@ def OpValid (F : File) (cs : List CU) : Op → Prop
   | .itNext _ => True
   | .secIdx _ => True
   | .symByName _ => True
+  | .siblings cu _ => ∃ c ∈ cs, c.cuOffset = cu
+  | .ref cu _ name => (∃ c ∈ cs, c.cuOffset = cu) ∧ ∀ o raw, F.refAttr cu o name = some (true, raw) → raw < F.size
+  | .pubname name => ∀ tbl e, F.pubnames = some tbl → tbl.find? (·.1 == name) = some e → ∃ c ∈ cs, c.cuOffset = e.2.1
 
 theorem inv_pos (hinv : Inv F cs st) (n : Nat) : Inv F cs { st with pos := n } :=
   { cu := hinv.cu, units := hinv.units, sec := hinv.sec, sym := hinv.sym, iters := hinv.iters }
@@ -748,7 +751,7 @@ theorem step_refaddr (wf : FileWF F cs) (hinv : Inv F cs st) {x : Nat} (hx : x <
   obtain ⟨c, sz, h1, hc, hsz, h5, h6, h2⟩ := getCUCont'_valid wf hinv hx
   have key : (step F st (.refaddr x)).1 = (pureRefaddr F c sz x).map (fun d => Ans.nat d.offset) ∧
       Inv F cs (step F st (.refaddr x)).2 := by
-    simp only [step]
+    simp only [step, refaddrAt]
     generalize getCUCont' F st x = g at h1 h2
     obtain ⟨r, st1⟩ := g
     simp only at h1 h2
@@ -802,6 +805,18 @@ theorem step_symByName (hinv : Inv F cs st) (name : String) :
   simp only [step]
   rcases hinv.sym with h | h <;> rw [h] <;>
   exact ⟨rfl, { cu := hinv.cu, units := hinv.units, sec := hinv.sec, sym := Or.inr rfl, iters := hinv.iters }⟩
+
+/-- `dieAt` keeps the invariant and answers inside the unit asked for -/
+theorem dieAt_cases (wf : FileWF F cs) (hinv : Inv F cs st) {c : CU} (hc : c ∈ cs) (off : Nat) :
+    Inv F cs (dieAt F st c.cuOffset off).2 ∧ ∀ c' d, (dieAt F st c.cuOffset off).1 = .ok (c', d) → c' = c := by
+  obtain ⟨sz, hsz, _⟩ := mem_size wf hc
+  obtain ⟨h3, h4⟩ := dieAt_spec wf hinv hc hsz off
+  refine ⟨h4, ?_⟩
+  intro c' d h
+  rw [h] at h3
+  cases hp : pureRefaddr F c sz off with
+  | error e => rw [hp] at h3; simp [Except.map] at h3
+  | ok d' => rw [hp] at h3; simp [Except.map] at h3; exact h3.1
 
 /-- EVERY operation (navigation, generators created, resumed and abandoned, seeks) keeps the invariant -/
 theorem step_inv (wf : FileWF F cs) (hinv : Inv F cs st) {op : Op} (hv : OpValid F cs op) : Inv F cs (step F st op).2 := by
@@ -926,6 +941,79 @@ theorem step_inv (wf : FileWF F cs) (hinv : Inv F cs st) {op : Op} (hv : OpValid
         | ok o => cases o <;> exact key _
   | secIdx name => exact (step_secIdx hinv name).2
   | symByName name => exact (step_symByName hinv name).2
+  | siblings cu off =>
+    obtain ⟨c, hc, rfl⟩ := hv
+    obtain ⟨h4, hcc⟩ := dieAt_cases wf hinv hc off
+    simp only [step]
+    generalize dieAt F st c.cuOffset off = g2 at h4 hcc
+    obtain ⟨r2, st2⟩ := g2
+    cases r2 with
+    | error e => exact h4
+    | ok cd =>
+      obtain ⟨c', d⟩ := cd
+      have := hcc c' d rfl; subst this
+      simp only
+      have h5 := inUnit_inv wf h4 hc (getParent (F.parseDIE c'.cuOffset) c'.cuDieOffset (fuelOf F) d)
+        (fun u hu => getParent_core (wf.dieOff _) (wf.dieLow c' hc) _ _ hu)
+      generalize inUnit st2 c' (getParent (F.parseDIE c'.cuOffset) c'.cuDieOffset (fuelOf F) d) = g3 at h5
+      obtain ⟨r3, st3⟩ := g3
+      cases r3 with
+      | error e => exact h5
+      | ok p =>
+        cases p with
+        | none => exact h5
+        | some p =>
+          simp only
+          have h6 := inUnit_inv wf h5 hc (fun u => drain (F.parseDIE c'.cuOffset) c'.cuDieOffset (fuelOf F) (ChildIter.new p) u [])
+            (fun u hu => drain_core (wf.dieOff _) (wf.dieLow c' hc) _ _ _ hu)
+          generalize inUnit st3 c' (fun u => drain (F.parseDIE c'.cuOffset) c'.cuDieOffset (fuelOf F) (ChildIter.new p) u []) = g4 at h6
+          obtain ⟨r4, st4⟩ := g4
+          cases r4 <;> exact h6
+  | ref cu off name =>
+    obtain ⟨⟨c, hc, rfl⟩, hraw⟩ := hv
+    obtain ⟨sz, hsz, _⟩ := mem_size wf hc
+    obtain ⟨h4, hcc⟩ := dieAt_cases wf hinv hc off
+    simp only [step]
+    generalize dieAt F st c.cuOffset off = g2 at h4 hcc
+    obtain ⟨r2, st2⟩ := g2
+    cases r2 with
+    | error e => exact h4
+    | ok cd =>
+      obtain ⟨c', d⟩ := cd
+      have := hcc c' d rfl; subst this
+      simp only
+      cases hr : F.refAttr c'.cuOffset d.offset name with
+      | none => exact h4
+      | some br =>
+        obtain ⟨b, raw⟩ := br
+        cases b with
+        | false =>
+          simp only [cuEnd_eq hsz]
+          have h5 := (inUnit_refaddr wf h4 hc (c'.cuOffset + sz) (c'.cuOffset + raw)).2
+          generalize inUnit st2 c' (fun u => unitDIEFromRefaddr (F.parseDIE c'.cuOffset) c'.cuDieOffset (c'.cuOffset + sz) u (c'.cuOffset + raw)) = g3 at h5
+          obtain ⟨r3, st3⟩ := g3
+          cases r3 <;> exact h5
+        | true =>
+          simp only
+          obtain ⟨_, _, _, _, _, _, _, h⟩ := step_refaddr wf h4 (hraw _ _ hr)
+          exact h
+  | pubname name =>
+    simp only [step]
+    cases hp : F.pubnames with
+    | none => exact hinv
+    | some tbl =>
+      simp only
+      cases hf : tbl.find? (·.1 == name) with
+      | none => exact hinv
+      | some e =>
+        obtain ⟨nm, cuo, dieo⟩ := e
+        obtain ⟨c, hc, hcu⟩ := hv tbl _ hp hf
+        simp only at hcu; subst hcu
+        simp only
+        obtain ⟨h4, _⟩ := dieAt_cases wf hinv hc dieo
+        generalize dieAt F st c.cuOffset dieo = g2 at h4
+        obtain ⟨r2, st2⟩ := g2
+        cases r2 <;> exact h4
 
 /-- the invariant holds after every history of valid operations -/
 theorem run_inv (wf : FileWF F cs) : ∀ (ops : List Op) (st : State), Inv F cs st → (∀ op ∈ ops, OpValid F cs op) →
@@ -976,6 +1064,9 @@ theorem step_answer_eq (wf : FileWF F cs) {st st' : State} (hinv : Inv F cs st) 
   | all _ => exact absurd hl (by simp [Lookup])
   | itNew _ => exact absurd hl (by simp [Lookup])
   | itNext _ => exact absurd hl (by simp [Lookup])
+  | siblings _ _ => exact absurd hl (by simp [Lookup])
+  | ref _ _ _ => exact absurd hl (by simp [Lookup])
+  | pubname _ => exact absurd hl (by simp [Lookup])
 
 end state
 end PyElf.Proofs.C10
